@@ -206,3 +206,79 @@ package fans
 //@ func (*CmdFan).SetPwmEnabled
 //@   ensures err == nil
 //@   modifies nothing
+
+// ================================ measured / configured limits (C13) ================================
+//@ pure irpm(d map[int]float64, k int) int = trunc(d[k])
+//@ pure rpmDataOK(d map[int]float64) bool = forall k :: k in d ==> fin(d[k]) && abs(real(d[k])) <= 1000000000000000.0 && 0 <= k && k <= 255
+//@ pure noRpm(d map[int]float64) bool = forall k :: k in d ==> irpm(d, k) <= 0
+//@ pure isMaxOf(d map[int]float64, m int) bool = (noRpm(d) && m == 255) || (m in d && irpm(d, m) > 0 && (forall k :: k in d ==> irpm(d, k) <= irpm(d, m) && (irpm(d, k) == irpm(d, m) ==> m <= k)))
+//@ pure isStartOf(d map[int]float64, s int) bool = (noRpm(d) && s == 255) || (s in d && irpm(d, s) > 0 && (forall k :: k in d && irpm(d, k) > 0 ==> s <= k))
+//@ pure dataPtr(fan Fan) *map[int]float64 = fan is *HwMonFan ? fan.(*HwMonFan).FanCurveData : addrof(interpolated)
+//@ pure userStart(fan Fan) int = fan is *HwMonFan ? hwStart(fan.(*HwMonFan)) : 1
+//@ pure hwCfg(h *HwMonFan) bool = (h.Config.MinPwm != nil ==> h.MinPwm != nil && *h.MinPwm == *h.Config.MinPwm) && (h.Config.StartPwm != nil ==> h.StartPwm != nil && *h.StartPwm == *h.Config.StartPwm) && (h.Config.MaxPwm != nil ==> h.MaxPwm != nil && *h.MaxPwm == *h.Config.MaxPwm)
+
+//@ func (*HwMonFan).GetFanRpmCurveData
+//@   ensures result == fan.FanCurveData
+//@   modifies nothing
+//@ func (*FileFan).GetFanRpmCurveData
+//@   ensures result == addrof(interpolated)
+//@   modifies nothing
+//@ func (*CmdFan).GetFanRpmCurveData
+//@   ensures result == addrof(interpolated)
+//@   modifies nothing
+
+//@ func (*HwMonFan).SetStartPwm
+//@   ensures (fan.Config.StartPwm == nil || force) ==> fan.StartPwm != nil && *fan.StartPwm == pwm
+//@   ensures !(fan.Config.StartPwm == nil || force) ==> fan.StartPwm == old(fan.StartPwm)
+//@   modifies fan.StartPwm
+//@ func (*HwMonFan).SetMaxPwm
+//@   ensures (fan.Config.MaxPwm == nil || force) ==> fan.MaxPwm != nil && *fan.MaxPwm == pwm
+//@   ensures !(fan.Config.MaxPwm == nil || force) ==> fan.MaxPwm == old(fan.MaxPwm)
+//@   modifies fan.MaxPwm
+
+//@ func ComputePwmBoundaries
+//@   props C13
+//@   requires fanWF(fan) && dataPtr(fan) != nil && rpmDataOK(*dataPtr(fan))
+//@   ensures[C13.max]       isMaxOf(*dataPtr(fan), maxPwm)
+//@   ensures[C13.start]     userStart(fan) >= 255 ==> isStartOf(*dataPtr(fan), startPwm)
+//@   ensures[C13.userstart] userStart(fan) < 255 ==> startPwm == userStart(fan)
+//@   modifies nothing
+//@   loop 1 "for pwm := range *pwmRpmMap"
+//@     invariant len(keys) == count#1 && (arrayOf(keys) == 0 || arrayOf(keys) >= old(W)) && (len(keys) == 0 ==> cap(keys) == 0)
+//@     invariant forall j :: 0 <= j && j < len(keys) ==> keys[j] in visited#1
+//@     invariant forall k :: k in visited#1 ==> k in *pwmRpmMap && exists j :: 0 <= j && j < len(keys) && keys[j] == k
+//@     invariant forall a, b :: 0 <= a && a < b && b < len(keys) ==> keys[a] != keys[b]
+//@     invariant pwmRpmMap == dataPtr(fan) && startPwm == 255 && maxPwm == 255 && userStartPwm == userStart(fan)
+//@   loop 2 "for _, pwm := range keys"
+//@     invariant -1 <= rangeindex && rangeindex < len(keys) && pwmRpmMap == dataPtr(fan) && userStartPwm == userStart(fan)
+//@     invariant maxRpm >= 0 && (maxRpm == 0 ==> maxPwm == 255 && (forall i :: 0 <= i && i <= rangeindex ==> irpm(*pwmRpmMap, keys[i]) <= 0))
+//@     invariant maxRpm > 0 ==> rangeindex >= 0 && maxPwm <= keys[rangeindex] && maxPwm in *pwmRpmMap && irpm(*pwmRpmMap, maxPwm) == maxRpm && (forall i :: 0 <= i && i <= rangeindex ==> irpm(*pwmRpmMap, keys[i]) <= maxRpm && (irpm(*pwmRpmMap, keys[i]) == maxRpm ==> maxPwm <= keys[i]))
+//@     invariant (startPwm == 255 && (forall i :: 0 <= i && i <= rangeindex ==> irpm(*pwmRpmMap, keys[i]) <= 0)) || (startPwm in *pwmRpmMap && irpm(*pwmRpmMap, startPwm) > 0 && (forall i :: 0 <= i && i <= rangeindex && irpm(*pwmRpmMap, keys[i]) > 0 ==> startPwm <= keys[i]))
+
+//@ pure noData(p *map[int]float64) bool = p == nil || len(*p) <= 0
+
+//@ func (*HwMonFan).AttachFanRpmCurveData
+//@   props C13
+//@   requires hwWF(fan) && hwCfg(fan) && (curveData != nil ==> rpmDataOK(*curveData))
+//@   ensures[C13.refuse]  noData(curveData) ==> err == os.ErrInvalid && fan.MinPwm == old(fan.MinPwm) && fan.StartPwm == old(fan.StartPwm) && fan.MaxPwm == old(fan.MaxPwm) && fan.FanCurveData == old(fan.FanCurveData)
+//@   ensures[C13.accept]  !noData(curveData) ==> err == nil && fan.FanCurveData == curveData
+//@   ensures[C13.cfgwins] hwCfg(fan)
+//@   ensures[C13.max]     !noData(curveData) && fan.Config.MaxPwm == nil ==> isMaxOf(*curveData, hwMax(fan))
+//@   ensures[C13.startfirst] !noData(curveData) && fan.Config.StartPwm == nil && old(hwStart(fan)) >= 255 ==> isStartOf(*curveData, hwStart(fan))
+//@   ensures[C13.start]   !noData(curveData) && fan.Config.StartPwm == nil ==> isStartOf(*curveData, hwStart(fan))
+//@   ensures[C13.min]     !noData(curveData) && fan.Config.MinPwm == nil ==> fan.MinPwm != nil && (fan.Config.StartPwm == nil ==> *fan.MinPwm == hwStart(fan))
+//@   modifies fan.FanCurveData, fan.StartPwm, fan.MaxPwm, fan.MinPwm
+//@ func (*FileFan).AttachFanRpmCurveData
+//@   props C13
+//@   ensures err == nil
+//@   modifies nothing
+//@ func (*CmdFan).AttachFanRpmCurveData
+//@   props C13
+//@   ensures err == nil
+//@   modifies nothing
+
+//@ func NewFan
+//@   props C13
+//@   returns (fan, err)
+//@   ensures[C13.new] config.HwMon != nil ==> err == nil && fan is *HwMonFan && fan.(*HwMonFan) != nil && hwCfg(fan.(*HwMonFan)) && fresh(fan.(*HwMonFan))
+//@   modifies nothing
